@@ -1,3 +1,5 @@
+//go:build verif
+
 // Package vt is the harness vocabulary.  This is the NATIVE implementation: it
 // reads inputs from a replay case, so that a harness is an ordinary Go function
 // that reproduces what the symbolic engine explored.  The symbolic engine
@@ -8,6 +10,7 @@ import (
 	"encoding/json"
 	"fmt"
 	"math"
+	"math/rand"
 	"os"
 	"reflect"
 	"runtime"
@@ -16,10 +19,13 @@ import (
 	"strconv"
 	"strings"
 	"sync"
+	"sync/atomic"
 	"time"
 
 	"google.golang.org/protobuf/proto"
 	"google.golang.org/protobuf/types/known/wrapperspb"
+
+	"github.com/smart-core-os/sc-golang/internal/verifhook"
 )
 
 // Case is one replay case.
@@ -44,7 +50,12 @@ type Result struct {
 	Leaked   int               `json:"leaked"`
 	Known    []string          `json:"known"`
 	Runs     int               `json:"runs,omitempty"`
+	HookCalls int              `json:"hook_calls,omitempty"`
 }
+
+var hookCalls atomic.Int64
+var runStart, runVictim int64
+var pickVictim func()
 
 type state struct {
 	mu      sync.Mutex
@@ -371,9 +382,44 @@ func RunCase(c Case) (res Result) {
 	if n < 1 {
 		n = 1
 	}
+	if n > 1 {
+		// schedule-dependent case: widen the race windows at the library's named yield points with random short pauses
+		rng := rand.New(rand.NewSource(int64(len(c.ID)) + 12345))
+		var rmu sync.Mutex
+		// PCT-style perturbation: in every run one randomly chosen yield-point call (the "change point") is held for
+		// a long time so that the other goroutines overtake it; every other call gets at most a tiny pause
+		verifhook.Hook = func(point string) {
+			k := hookCalls.Add(1)
+			rmu.Lock()
+			victim := runVictim
+			r := rng.Intn(8)
+			rmu.Unlock()
+			if k-runStart == victim {
+				time.Sleep(3 * time.Millisecond)
+				return
+			}
+			switch r {
+			case 0:
+				time.Sleep(50 * time.Microsecond)
+			case 1:
+				runtime.Gosched()
+			}
+		}
+		pickVictim = func() {
+			rmu.Lock()
+			runStart = hookCalls.Load()
+			runVictim = int64(1 + rng.Intn(14))
+			rmu.Unlock()
+		}
+		defer func() { verifhook.Hook = nil; pickVictim = nil }()
+	}
 	for i := 0; i < n; i++ {
+		if pickVictim != nil {
+			pickVictim()
+		}
 		res = runOnce(c)
 		res.Runs = i + 1
+		res.HookCalls = int(hookCalls.Load())
 		if len(res.Failed) > 0 || res.Panic != "" || res.Leaked > 0 || res.Rejected {
 			return res
 		}
